@@ -1,6 +1,5 @@
 (* The rank scorers are non-increasing along a ballot (the hypothesis of C17_positional), as theorems about
-   (a) the per-rank score expressions GENERATED from votelib/component/rankscore.py (Gen/Rankscore.v: Dowdall, Geometric,
-       ModifiedBorda, FixedTop), and
+   (a) [moved to Props/GenTie_Rankscore_mono.v: the per-rank score expressions GENERATED from votelib/component/rankscore.py], and
    (b) the score lists of the model Model/Convert.v [rank_scores] for Borda (any base), Geometric (base >= 1) and
        SequenceBased (a sequence that is non-increasing and ends non-negative: the list is padded with zeros);
    and the positional rule for a move past ANY number of places under any scorer that is non-increasing along the ballot
@@ -8,7 +7,6 @@
 From Coq Require Import ZArith QArith Qpower List Bool Arith Lia Lqa.
 From VL Require Import Prelude.Sx Prelude.PyDict Prelude.GDict Prelude.PyNum Model.GetNBest Model.Convert
      Proofs.Additive_proofs.
-From VL Require Gen.Rankscore.
 Import ListNotations.
 Open Scope Q_scope.
 
@@ -28,29 +26,6 @@ Proof.
   rewrite Z.pow_add_r, Z.pow_1_r by lia. nia.
 Qed.
 
-(* ------------------------------------------------------------------ (a) the generated per-rank expressions *)
-Lemma gen_dowdall_nonincreasing n r : (0 <= r)%Z ->
-  Gen.Rankscore.Dowdall_score n (r + 1) <= Gen.Rankscore.Dowdall_score n r.
-Proof.
-  intros Hr. unfold Gen.Rankscore.Dowdall_score, py_frac, Qdiv. rewrite !Qmult_1_l.
-  change (1 # 1) with (inject_Z 1). rewrite <- !inject_Z_plus. apply qinv_le.
-  - apply inject_Z_pos. lia.
-  - rewrite <- Zle_Qle. lia.
-Qed.
-
-Lemma gen_geometric_nonincreasing base n r : (1 <= base)%Z -> (0 <= r)%Z ->
-  Gen.Rankscore.Geometric_score base n (r + 1) <= Gen.Rankscore.Geometric_score base n r.
-Proof.
-  intros Hb Hr. unfold Gen.Rankscore.Geometric_score, py_frac, py_pow, Qdiv. rewrite !Qmult_1_l.
-  rewrite <- !Zpower_Qpower by lia. destruct (zpow_step base r Hb Hr) as [H0 H1]. apply qinv_le.
-  - apply inject_Z_pos, H0.
-  - rewrite <- Zle_Qle. exact H1.
-Qed.
-
-Lemma gen_modified_borda_nonincreasing n r :
-  Gen.Rankscore.ModifiedBorda_score n (r + 1) <= Gen.Rankscore.ModifiedBorda_score n r.
-Proof. unfold Gen.Rankscore.ModifiedBorda_score. rewrite inject_Z_plus. change (inject_Z 1) with 1. lra. Qed.
-
 Lemma py_max_mono a a' c : a' <= a -> py_max a' c <= py_max a c.
 Proof.
   intros H. unfold py_max. destruct (Qle_bool a' c) eqn:E1, (Qle_bool a c) eqn:E2.
@@ -58,12 +33,6 @@ Proof.
   - assert (~ a <= c) by (intros H1; apply Qle_bool_iff in H1; congruence). lra.
   - apply Qle_bool_iff in E2. lra.
   - exact H.
-Qed.
-
-Lemma gen_fixed_top_nonincreasing top n r :
-  Gen.Rankscore.FixedTop_score top n (r + 1) <= Gen.Rankscore.FixedTop_score top n r.
-Proof.
-  unfold Gen.Rankscore.FixedTop_score. apply py_max_mono. rewrite inject_Z_plus. change (inject_Z 1) with 1. lra.
 Qed.
 
 (* ------------------------------------------------------------------ (b) the score lists of the model *)
